@@ -76,7 +76,10 @@ def expr_path(e):
 
 
 def _passthrough(path):
-    return path.endswith("::iter") or path.endswith("::iter_mut") or path.endswith("as_ref") or path.endswith("as_mut") or path.endswith("::as_deref")
+    return (
+        path.endswith("::iter") or path.endswith("::iter_mut") or path.endswith("as_ref") or path.endswith("as_mut") or path.endswith("::as_deref")
+        or path.endswith("as std::iter::Iterator>::next") or path.endswith("::values") or path.endswith("::keys") or path.endswith("::as_str")
+    )
 
 
 def places_in(fn):
@@ -226,3 +229,35 @@ def _covered_by_whole(reads, v, p):
             return True
     # whole payload used as a value (e.g. passed to a helper)
     return (("as:" + v, p[0]) in reads) and False
+
+
+def deep_read_paths(db, fn, param=1, depth=3, _seen=None):
+    """field paths of `param` read by fn or (transitively, to `depth`) by local callees that receive
+    the parameter or a projection of it"""
+    seen = _seen or set()
+    if (fn.dp, param) in seen:
+        return set()
+    seen = seen | {(fn.dp, param)}
+    out = set(read_paths(db, fn, None, param))
+    if depth <= 0:
+        return out
+    fns = [fn] + [c for c in db.closures_of(fn) if c.path.count("{closure#") == fn.path.count("{closure#") + 1]
+    for bb, t, c in fn.calls():
+        if not c:
+            continue
+        from qv.engine import callee_path
+
+        hs = db.by_path.get(callee_path(c), [])
+        if len(hs) != 1 or hs[0].dp == fn.dp:
+            continue
+        for k, a in enumerate(t["args"]):
+            pl = a.get("c") or a.get("m")
+            if not pl:
+                continue
+            for r in expr_paths(fn_expr_place(fn, pl)):
+                if r[0] == param:
+                    sub = deep_read_paths(db, hs[0], k + 1, depth - 1, seen)
+                    for sp in sub:
+                        out.add(r[1] + sp)
+                    out.add(r[1])
+    return out
